@@ -73,7 +73,11 @@ func main() {
 		os.Exit(replay(os.Args[2]))
 	case "c11-child":
 		n, _ := strconv.Atoi(os.Args[2])
-		c11Child(n)
+		dir := ""
+		if len(os.Args) > 3 {
+			dir = os.Args[3]
+		}
+		c11Child(n, dir)
 	case "probe-format":
 		n, _ := strconv.ParseInt(os.Args[2], 10, 64)
 		probeFormat(n)
